@@ -17,6 +17,15 @@ symmetric and transitive (all triples, via the boolean matrix product), equal ob
 equal hashes and `hash` does not raise; `x in S` iff `x.space == S`; `S.element(x) is x` for
 members; element values / dtype / shape errors; derived spaces; indexing commutes with
 `asarray`.
+Round 4 stream `run_set_membership`: random plain sets (every non-composite class, composites
+nested to depth 3, built with odl's constructors and described from their live attributes) x
+random and targeted values: `x in S` vs `PSet.mem`; all ordered pairs of ~26 (thorough ~70)
+non-composite sets x atol in {none, 0, 1/4, 1, -1/4}: `A.contains_set(B)` vs
+`PLeaf.containsSet`; number sets x all dtypes: `contains_all` vs `PLeaf.containsAllDtype`.
+Oracles (independent of the model): membership by the documented meaning of each class written
+against Python / NumPy types only; membership respects `==` (separately built equal set);
+contains_set by the documented tower / end-point test, sound w.r.t. membership on probes,
+reflexive, transitive, monotone in atol; contains_all by np.dtype.kind.
 """
 import hashlib
 import itertools
@@ -57,6 +66,14 @@ ASSUMPTIONS = ['NaN exponents / coordinates are outside the model (constructors 
                '(castVal?); the generator stays inside that range; complex inputs offered to '
                'real spaces (NumPy warning / TypeError), non-writeable inputs (copy) and '
                "order='F' are not modelled",
+               'membership stream (x in S, contains_set, contains_all): values are None, bool, '
+               'Python / NumPy int, float, complex scalars on a dyadic grid, text over the '
+               'alphabet "abxy" (text that parses as a number converts in np.array(.., dtype=float) '
+               'and is outside the model), tuples / lists nested to depth 2 (list vs tuple is not '
+               'distinguished); interval products have finite bounds; np.bool_ values, NumPy arrays '
+               'as values, FiniteSets with NumPy-scalar elements (finding C20-F14: oracle only), '
+               'RectGrid / space members, contains_all of list / meshgrid / (d, N)-array forms and '
+               'IntervalProd.contains_all are not modelled',
                'array contents are fixed while hashes are compared (array-weighting hashes '
                'depend on mutable content by design)']
 EXPECTED_BRANCHES = [
@@ -103,6 +120,14 @@ EXPECTED_BRANCHES = [
               'stacked-2d-array-wrong-length', 'list-too-short', 'list-too-long',
               'list-last-other-dtype-element')
     for c in (True, False)]
+# round 4: membership in plain sets
+EXPECTED_BRANCHES += ['mem/{}/{}'.format(c, o) for c in (
+    'EmptySet', 'Strings', 'ComplexNumbers', 'RealNumbers', 'Integers', 'IntervalProd',
+    'FiniteSet', 'CartesianProduct', 'SetUnion', 'SetIntersection') for o in 'tf'] + [
+    'mem/UniversalSet/t', 'cset/UniversalSet/t', 'cset/IntervalProd/e'] + [
+    'cset/{}/{}'.format(c, o) for c in ('EmptySet', 'Strings', 'ComplexNumbers', 'RealNumbers',
+                                        'Integers', 'IntervalProd', 'FiniteSet') for o in 'tf'] + [
+    'call/{}/{}'.format(c, o) for c in ('complex', 'real', 'integers') for o in 'tf']
 KNOWN_EXPLAINS_DISAGREEMENT = False
 
 
